@@ -53,6 +53,14 @@ CHECKS['C06'] = dict(level='exploration', design='6/C06',
     technique='property-based testing (Hypothesis): differential testing of one input under generated file partitions/orders, .idx subsets, index-directory reference (in-process) and --threads 2-5 / PYTHONHASHSEED values (console entry point in fresh processes) against a baseline run',
     text='For generated multi-gene inputs with skipped transcripts, every variant run (records split over 2-4 GVFs in any order, with .idx on a subset, reference as generateIndex directory, --threads 2-5 through pathos, hash seeds 1/2/3/random) must write exactly the baseline sequence set and exit 0.',
     note='Thread counts and hash seeds are sampled; the scheduler inside pathos is not controlled (results are gathered in order). Subprocess cost bounds the volume (quick: 64 inputs x 5 variant runs).')
+CHECKS['C07'] = dict(level='fault_enumeration', design='6/C07',
+    technique='fault injection through a guarded hook + exhaustive enumeration of all 2^n fault subsets per generated input (property-based generation of the inputs); compositional oracle: output(F) = union of the surviving units run alone; exit-status / no-FASTA oracle without the flag; tally oracle',
+    text='For generated inputs with 2-5 processing units (main call, fusions, circRNAs on shared transcripts) every subset of units is made to fail at its entry: with --skip-failed the run must complete, tally the failures per transcript and kind, carry no entry of a failed fusion/circRNA and equal the union of the outputs of the surviving units each run alone; without the flag any failure must abort and leave no FASTA. Sampled subsets are repeated with --threads 3 through the console entry point.',
+    note='Faults are raised at the entry of the three per-unit callers only (hook commit in /repo, env MOPEPGEN_VERIF=1 + MOPEPGEN_VERIF_FAIL); failures deep inside a unit and parser --skip-failed paths are not enumerated here. Per-unit reference outputs are measured on the tool itself; the anchor is the fault-free run without the flag.')
+CHECKS['C12'] = dict(level='exploration', design='6/C12',
+    technique='model-based testing of operation histories (dictionary model params -> pool, pool from the independent digest model): exhaustive enumeration of all histories up to length 3 (quick) / 4 (thorough) over a reduced operation alphabet + Hypothesis-generated longer histories; invariant checked after every step',
+    text='Histories of generateIndex / updateIndex (with and without --force) / load / metadata-version tampering on one directory: after every step each registered parameter set must load exactly its own model pool and the saved genome, proteome, annotation and coding-transcript data; absent sets and invalid recorded versions must be refused; refused operations must leave every file byte-identical.',
+    note='Alphabet of 8 parameter sets (two aliases of the same parameters); histories <= 10 steps; one small reference per history. Exhaustive only for the stated bounded alphabet and length.')
 NOT_YET = {}
 
 def main():
